@@ -28,7 +28,11 @@ RULE = ("security: all s-expressions of depth <= D built from the 3 naming atoms
         "foreign function, sub-attribute chains, package with one allowed submodule, malformed names), wrapped by every "
         "structural tag (instance, method, list, tuple, dictionary key/value, set, frozenset, reference, forward and "
         "backward dereference, persistent, unpersistable, instance state, registered unjellyable state), under 3 "
-        "policies (basic types only; allowInstancesOf; + function/method types).  round trip: every constructible "
+        "policies (basic types only; allowInstancesOf; + function/method types).  history: for every first call c1 out of "
+        "(5 policies incl. DummySecurityOptions and one allowing the otherwise disallowed module) x (module/class/"
+        "function/generic/instance/method forms over 14 names), a fresh process runs c1 and then the whole call "
+        "alphabet, every call judged by its own policy -- every ordered pair of calls (both orders) plus longer "
+        "histories; a failing call is re-run in fresh processes to find the shortest reproducing history.  round trip: every constructible "
         "rooted graph with <= N container nodes of 7 kinds and <= 2 children each.  non-trivial = an expression "
         "that names something outside the policy, or a graph with a shared or cyclic reference")
 BOUNDS = {"quick": "s-expression depth 3 (naming atom inside one wrapper inside one wrapper); graphs with <= 3 nodes (3rd level: 5 kinds)",
@@ -158,6 +162,14 @@ class Env:
             if pname == "instances+function":
                 p.allowTypes("function", "method")
             self.policies[pname] = p
+        # extra policies used only by the history dimension (each call is judged by its own policy)
+        self.hist_policies = dict(self.policies)
+        self.hist_policies["dummy"] = jelly.DummySecurityOptions()
+        pe = jelly.SecurityOptions()
+        pe.allowBasicTypes()
+        pe.allowInstancesOf(c45evil.Bad)
+        pe.allowTypes("function", "method")
+        self.hist_policies["evil-instances+function"] = pe
         # remove the sources: everything needed is imported; the lazy ones must stay importable, so keep the dir
         # until close()
 
@@ -369,7 +381,7 @@ def evaluate(env, pname, sexp):
     """Run the real unjelly; return (outcome, [(kind, description)])."""
     import copy
     import warnings
-    policy = env.policies[pname]
+    policy = env.hist_policies[pname]
     env.reset()
     problems = []
     arg = copy.deepcopy(sexp)
@@ -385,15 +397,24 @@ def evaluate(env, pname, sexp):
     if raised is None:
         for kind, what in audit_result(env, policy, res):
             problems.append(("returned-" + kind, what))
+    def allowed(modname):
+        try:
+            return bool(policy.isModuleAllowed(modname))
+        except Exception:
+            return False
+
     for entry in sorted(set(log)):
         if entry.startswith("resolved-in:"):
-            problems.append(("resolved-name-in-disallowed-module", entry))
+            if not allowed(entry.split(":")[1]):
+                problems.append(("resolved-name-in-disallowed-module", entry))
         elif entry.startswith("imported:"):
-            problems.append(("imported-disallowed-module", entry))
+            if not allowed(entry.split(":")[1]):
+                problems.append(("imported-disallowed-module", entry))
         elif entry.startswith(("instantiated:c45evil", "setstate:c45evil")):
-            problems.append(("instantiated-class-of-disallowed-module", entry))
+            if not allowed("c45evil"):
+                problems.append(("instantiated-class-of-disallowed-module", entry))
     for m in ("c45lazy", "c45pkg.secret"):
-        if m in sys.modules and not any(p[0] == "imported-disallowed-module" for p in problems):
+        if m in sys.modules and not allowed(m) and not any(p[0] == "imported-disallowed-module" for p in problems):
             problems.append(("imported-disallowed-module", m))
     env.reset()
     outcome = "raised" if raised is not None else "returned"
@@ -442,6 +463,158 @@ def security_case(env, stats, pname, sexp, label):
             stats.violation(sig, "policy %s, unjelly(%r): %s" % (pname, sexp, what),
                             {"mode": "sec", "policy": pname, "sexp": sexp})
     return outcome
+
+
+# ----------------------------------------------------------------------------------------------
+# history dimension: state carried from one unjelly call (and policy) to the next in ONE process
+
+HIST_NAMES = [b"c45ok.Good", b"c45ok.Other", b"c45ok.func", b"c45ok.os", b"c45ok.evil", b"c45ok.ImportedBad",
+              b"c45ok.imported_g", b"c45ok.evil.Bad", b"c45evil.Bad", b"c45evil.g", b"c45lazy.X", b"os.system",
+              b"c45pkg.inner.Deep", b"c45pkg.secret.S"]
+HIST_MODULES = [b"c45ok", b"c45evil", b"c45lazy", b"os", b"c45pkg.inner", b"c45pkg.secret"]
+HIST_POLICIES = ["dummy", "evil-instances+function", "instances+function", "instances", "basic"]
+
+
+def hist_calls():
+    """[(policy name, sexp, label)]: every name-resolving / instance-producing form x every policy, permissive
+    policies first."""
+    cat = dict(QUAL_NAMES)
+    mcat = dict(MODULE_NAMES)
+    exprs = [([b"module", n], "module:" + mcat[n]) for n in HIST_MODULES]
+    for n in HIST_NAMES:
+        exprs.append(([b"class", n], "class:" + cat[n]))
+        exprs.append(([b"function", n], "function:" + cat[n]))
+        exprs.append(([n, [b"dictionary", [b"x", 1]]], "generic:" + cat[n]))
+        exprs.append(([b"instance", [b"class", n], [b"dictionary", [b"a", 1]]], "instance-class(class:%s)" % cat[n]))
+    exprs.append(([b"method", b"run", [b"None"], [b"class", b"c45evil.Bad"]], "method(class:disallowed.attr)"))
+    exprs.append(([b"method", b"meth", list(GOOD_INST), [b"class", b"c45ok.Good"]], "method(class:allowed-class)"))
+    exprs.append(([b"c45reg.Remote", [b"dictionary", [b"q", 1]]], "registered-unjellyable"))
+    return [(p, e, lab) for p in HIST_POLICIES for e, lab in exprs]
+
+
+def in_fresh_fork(fn):
+    """Run fn() in a forked child (the caller has not executed any unjelly itself) and return its JSON-able result."""
+    import json
+    r, w = os.pipe()
+    pid = os.fork()
+    if pid == 0:
+        code = 0
+        try:
+            os.close(r)
+            data = json.dumps(fn()).encode()
+            while data:
+                n = os.write(w, data)
+                data = data[n:]
+        except BaseException:
+            import traceback
+            traceback.print_exc()
+            code = 1
+        finally:
+            os._exit(code)
+    os.close(w)
+    chunks = []
+    while True:
+        b = os.read(r, 1 << 16)
+        if not b:
+            break
+        chunks.append(b)
+    os.close(r)
+    _, status = os.waitpid(pid, 0)
+    if status != 0:
+        raise RuntimeError("history child failed (status %r)" % status)
+    return json.loads(b"".join(chunks).decode())
+
+
+def run_history(env, calls, seq):
+    """Execute the calls with indices ``seq`` in order in this process; return the problems of each."""
+    out = []
+    for i in seq:
+        pname, sexp, label = calls[i]
+        outcome, problems, exc = evaluate(env, pname, sexp)
+        out.append([[k, wh] for k, wh in problems])
+    return out
+
+
+def hist_sig(calls, seq, kind):
+    p2, e2, l2 = calls[seq[-1]]
+    if len(seq) == 1:
+        return "jelly.unjelly:%s:%s" % (l2, kind)
+    if len(seq) == 2:
+        p1, e1, l1 = calls[seq[0]]
+        return "jelly.unjelly.history:%s@%s:%s:after:%s@%s" % (l2, p2, kind, l1, p1)
+    return "jelly.unjelly.history:%s@%s:%s:after-longer-history" % (l2, p2, kind)
+
+
+def hist_main(idx, nparts, tier):
+    """Entry point of the fresh interpreter started by a 'hist' shard.  This process never calls unjelly itself: it
+    forks one child per first call c1; the child runs c1 and then the whole call alphabet, each call judged by its own
+    policy.  A failing call is re-run in further fresh forks to find the shortest history that reproduces it."""
+    import json
+    env = Env.get()
+    try:
+        calls = hist_calls()
+        n = len(calls)
+        evaluations = 0
+        found = {}      # (index of failing call, kind) -> (c1, position in the child's sequence)
+        for c1 in range(n):
+            if c1 % nparts != idx:
+                continue
+            seq = [c1] + list(range(n))
+            res = in_fresh_fork(lambda: run_history(env, calls, seq))
+            evaluations += len(seq)
+            for pos, problems in enumerate(res):
+                for kind, what in problems:
+                    found.setdefault((seq[pos], kind), (c1, pos, what))
+        findings = []
+        done_sigs = set()
+        for (c2, kind), (c1, pos, what) in sorted(found.items()):
+            if len(findings) >= 8:
+                break
+            group = (calls[c2][2], calls[c2][0], kind)
+            if group in done_sigs:
+                continue
+            done_sigs.add(group)
+            seq_full = ([c1] + list(range(n)))[:pos + 1]
+            best = None
+            for cand in [[c2], [c1, c2]] + [[x, c2] for x in range(n) if x != c1]:
+                r = in_fresh_fork(lambda: run_history(env, calls, cand))
+                if any(k == kind for k, _ in r[-1]):
+                    best = cand
+                    break
+            if best is None:
+                best = seq_full
+            findings.append({"sig": hist_sig(calls, best, kind),
+                             "detail": "history %s: last call %s" % (
+                                 [[calls[i][0], repr(calls[i][1])] for i in best[-3:]], what),
+                             "seq": best})
+        sys.stdout.write("C45HIST " + json.dumps({"evaluations": evaluations, "ncalls": n, "findings": findings}) + "\n")
+    finally:
+        env.close()
+
+
+def hist_shard(stats, idx, nparts, tier):
+    import json
+    import subprocess
+    code = "from checks import C45; C45.hist_main(%d, %d, %r)" % (idx, nparts, tier)
+    p = subprocess.run([sys.executable, "-c", code], capture_output=True, text=True, timeout=1500)
+    line = [l for l in p.stdout.splitlines() if l.startswith("C45HIST ")]
+    if p.returncode != 0 or not line:
+        raise RuntimeError("history subprocess failed rc=%s\n%s" % (p.returncode, p.stderr[-2000:]))
+    out = json.loads(line[-1][8:])
+    calls = hist_calls()
+    n = out["ncalls"]
+    stats.evaluations += out["evaluations"]
+    for c1 in range(n):
+        if c1 % nparts == idx:
+            for c2 in range(n):
+                if calls[c1][0] != calls[c2][0]:
+                    stats.nt(("hist", c1, c2))
+    stats.outcome("history-run")
+    for f in out["findings"]:
+        stats.outcome("history-violation")
+        stats.violation(f["sig"], f["detail"], {"mode": "hist", "calls": [[calls[i][0], calls[i][1]] for i in f["seq"]],
+                                                "labels": [calls[i][2] for i in f["seq"]]})
+    stats.sample({"history": "c1 then all %d (policy, expression) calls in one process, for every c1" % n})
 
 
 # ----------------------------------------------------------------------------------------------
@@ -789,11 +962,12 @@ def atom_roundtrips(env, stats):
 
 # ----------------------------------------------------------------------------------------------
 NSEC = 12
+NHIST = 6
 NRT = 32
 
 
 def shards(tier, seed):
-    return [["sec", i] for i in range(NSEC)] + [["rt", i] for i in range(NRT)] + [["atoms", 0]]
+    return [["hist", i] for i in range(NHIST)] + [["sec", i] for i in range(NSEC)] + [["rt", i] for i in range(NRT)] + [["atoms", 0]]
 
 
 def rt_specs(tier, part, nparts):
@@ -809,6 +983,9 @@ def rt_specs(tier, part, nparts):
 def run_shard(shard, tier, seed):
     kind, idx = shard
     stats = Stats()
+    if kind == "hist":
+        hist_shard(stats, idx, NHIST, tier)
+        return stats
     env = Env.get()
     try:
         if kind == "sec":
@@ -845,6 +1022,11 @@ def untuple(x):
 def replay(w):
     env = Env.get()
     try:
+        if w["mode"] == "hist":
+            calls = [(c[0], c[1], lab) for c, lab in zip(w["calls"], w["labels"])]
+            res = run_history(env, calls, list(range(len(calls))))
+            seq = list(range(len(calls)))
+            return [(hist_sig(calls, seq, k), wh) for k, wh in res[-1]]
         if w["mode"] == "sec":
             outcome, problems, exc = evaluate(env, w["policy"], w["sexp"])
             return attribute(env, w["policy"], w["sexp"], problems)
